@@ -39,6 +39,8 @@ pub enum Ty {
     Sub,
     /// a boxed subscriber of a subject (`Box<dyn Publisher<..>>`)
     Pub,
+    /// the subject of one group of group_by (a token; calls on it are `Ev.to id ..`)
+    Grp,
     Named(String),
 }
 
@@ -55,6 +57,7 @@ impl Ty {
             Ty::Callback => "Rs.Callback".into(),
             Ty::Sub => "Rs.Sub".into(),
             Ty::Pub => "Rs.Pub".into(),
+            Ty::Grp => "Rs.Grp".into(),
             Ty::Opt(t) => format!("(Option {})", t.lean()),
             Ty::List(t) => format!("(List {})", t.lean()),
             Ty::Tuple(ts) => format!("({})", ts.iter().map(|t| t.lean()).collect::<Vec<_>>().join(" × ")),
@@ -229,6 +232,7 @@ impl Generics {
                     "bool" | "AtomicBool" => Ok(Ty::Bool),
                     "Option" => Ok(Ty::Opt(Box::new(self.ty(args[0])?))),
                     "Vec" | "VecDeque" | "HashSet" => Ok(Ty::List(Box::new(self.ty(args[0])?))),
+                    "HashMap" if args.len() == 2 => Ok(Ty::List(Box::new(Ty::Tuple(vec![self.ty(args[0])?, self.ty(args[1])?])))),
                     "Infallible" => Ok(Ty::Err),
                     "BoxSubscription" | "BoxSubscriptionThreads" => Ok(Ty::Sub),
                     _ if CELLS.contains(&name.as_str()) && args.len() == 1 => self.ty(args[0]),
@@ -303,6 +307,8 @@ pub struct MethodInfo {
     pub needs_down: bool,
     /// `actual_subscribe` of a subject: extra parameter `newPub`
     pub needs_pub: bool,
+    /// `entry(..).or_insert_with(..)` creating a group subject: extra parameter `newGrp`
+    pub needs_grp: bool,
     /// result type of a pure method
     pub ret: Ty,
     /// a query that can panic: its Lean function returns `Option ret`
@@ -555,6 +561,7 @@ impl<'a> Fx<'a> {
                         _ => None,
                     },
                     ("len", 0) => Some(Ty::Nat),
+                    ("drain", 0) | ("drain", 1) => Some(rt),
                     _ => None,
                 }
             }
@@ -750,6 +757,51 @@ impl<'a> Fx<'a> {
                         self.locals.remove(&n);
                         self.aliases.insert(n, Place { root_self: true, local: String::new(), path: vec![] });
                         return Ok(());
+                    }
+                }
+                // `let x = map.entry(k).or_insert_with(|| { … });` — look the key up; only a new key runs the closure
+                if let (Pat::Ident(pi), Expr::MethodCall(oi)) = (&l.pat, &*init.expr) {
+                    if oi.method == "or_insert_with" && oi.args.len() == 1 {
+                        if let (Expr::MethodCall(en), Expr::Closure(cl)) = (&*oi.receiver, &oi.args[0]) {
+                            if en.method == "entry" && en.args.len() == 1 && cl.inputs.is_empty() {
+                                let mpl = self.place(&en.receiver)?;
+                                let vt = match self.place_ty(&mpl) {
+                                    Some(Ty::List(t)) => match *t {
+                                        Ty::Tuple(kv) if kv.len() == 2 => kv[1].clone(),
+                                        _ => return bail("entry() on something that is not a map"),
+                                    },
+                                    _ => return bail("entry() on something that is not a map"),
+                                };
+                                let k = self.expr(&en.args[0])?;
+                                let x = ident(&pi.ident.to_string());
+                                let kk = self.fresh("k");
+                                self.emit(format!("let {} := {}", kk, k));
+                                let xe = format!("{}_e", x);
+                                self.emit(format!("let mut {} : {} := Rs.dflt", xe, vt.lean()));
+                                let cur = self.read_place(&mpl);
+                                self.emit(format!("match Rs.mapGet {} {} with", cur, kk));
+                                self.emit("| some found =>");
+                                self.ind += 2;
+                                self.emit(format!("{} := found", xe));
+                                self.ind -= 2;
+                                self.emit("| none =>");
+                                self.ind += 2;
+                                let saved_l = self.locals.clone();
+                                let v = match &*cl.body {
+                                    Expr::Block(b) => self.block_value(&b.block)?,
+                                    other => self.expr(other)?,
+                                };
+                                self.locals = saved_l;
+                                self.emit(format!("{} := {}", xe, v));
+                                let cur2 = self.read_place(&mpl);
+                                self.write_place(&mpl, &format!("(Rs.mapInsert {} {} {})", cur2, kk, xe))?;
+                                self.ind -= 2;
+                                self.emit(format!("let {} := {}", x, xe));
+                                self.aliases.remove(&x);
+                                self.locals.insert(x, vt);
+                                return Ok(());
+                            }
+                        }
                     }
                 }
                 // `let S { a, b, .. } = &mut *inner;` — names for the fields
@@ -1200,6 +1252,25 @@ impl<'a> Fx<'a> {
             }
             Expr::Block(b) => self.pure_block(&b.block),
             Expr::Range(r) if r.start.is_none() && r.end.is_none() => Ok("Rs.full".into()),
+            Expr::Struct(st) if last_seg(&st.path) == "KeyObservable" => {
+                // the announcement of a group: its key and its subject
+                let mut k = None;
+                let mut g = None;
+                for fv in &st.fields {
+                    if let Member::Named(n) = &fv.member {
+                        let v = self.expr(&fv.expr)?;
+                        match n.to_string().as_str() {
+                            "key" => k = Some(v),
+                            "subject" => g = Some(v),
+                            _ => return bail("field of KeyObservable"),
+                        }
+                    }
+                }
+                match (k, g) {
+                    (Some(k), Some(g)) => Ok(format!("(Rs.keyObs {} {})", k, g)),
+                    _ => bail("KeyObservable literal"),
+                }
+            }
             Expr::Closure(_) => bail("closure in an unexpected position"),
             Expr::Macro(m) => {
                 let n = last_seg(&m.mac.path);
@@ -1345,6 +1416,9 @@ impl<'a> Fx<'a> {
             let full: Vec<String> = p.path.segments.iter().map(|s| s.ident.to_string()).collect();
             let name = full.last().unwrap().as_str();
             let args: Vec<&Expr> = c.args.iter().collect();
+            if full.len() == 2 && matches!(name, "default" | "new") && args.is_empty() && self.generic_is_grp(&full[0]) {
+                return Ok("newGrp".into());
+            }
             match (name, args.len()) {
                 ("drop", 1) if full.len() == 1 => return Ok("()".into()),
                 ("new", 1) if full.len() == 2 && full[0] == "Box" => return self.expr(args[0]),
@@ -1388,6 +1462,9 @@ impl<'a> Fx<'a> {
         }
         if mi.needs_pub {
             a.push("newPub".into());
+        }
+        if mi.needs_grp {
+            a.push("newGrp".into());
         }
         if mi.needs_down {
             a.push("down".into());
@@ -1440,6 +1517,28 @@ impl<'a> Fx<'a> {
                 return self.struct_call(si, &name, &m.receiver, &args);
             }
             return bail("the slot observer (RcObserver) is not available in this module");
+        }
+        // the subject of a group
+        if rt == Some(Ty::Grp) {
+            let r = self.expr(&m.receiver)?;
+            match (name.as_str(), nargs) {
+                ("next", 1) => {
+                    let v = self.expr(args[0])?;
+                    self.out(format!("Rs.emitTo {}.id (Notif.next (Rs.ToVal.toVal {}))", r, v))?;
+                    return Ok("()".into());
+                }
+                ("error", 1) => {
+                    let v = self.expr(args[0])?;
+                    self.out(format!("Rs.emitTo {}.id (Notif.error {})", r, v))?;
+                    return Ok("()".into());
+                }
+                ("complete", 0) => {
+                    self.out(format!("Rs.emitTo {}.id Notif.complete", r))?;
+                    return Ok("()".into());
+                }
+                ("clone", 0) => return Ok(r),
+                _ => return bail(format!("method `.{}` of a group subject", name)),
+            }
         }
         // a boxed subscriber of a subject
         if rt == Some(Ty::Pub) {
@@ -1734,6 +1833,19 @@ impl<'a> Fx<'a> {
                 self.write_place(&pl, "Rs.dflt")?;
                 Ok("()".into())
             }
+            ("drain", 0) => {
+                let pl = self.place(&m.receiver)?;
+                let cur = self.read_place(&pl);
+                let t = self.fresh("t");
+                self.emit(format!("let {} := {}", t, cur));
+                self.write_place(&pl, "Rs.dflt")?;
+                Ok(t)
+            }
+            ("contains_key", 1) => {
+                let r = self.expr(&m.receiver)?;
+                let a = self.expr(args[0])?;
+                Ok(format!("(Rs.isSome (Rs.mapGet {} {}))", r, a))
+            }
             ("drain", 1) => {
                 let a = self.expr(args[0])?;
                 if a != "Rs.full" {
@@ -1748,6 +1860,12 @@ impl<'a> Fx<'a> {
             }
             _ => bail(format!("method `.{}/{}` not understood (receiver `{}`)", name, nargs, show(&m.receiver))),
         }
+    }
+
+    /// is `name` a generic parameter standing for a group subject?
+    fn generic_is_grp(&self, name: &str) -> bool {
+        self.strukt.fields.iter().any(|(_, t)| matches!(t, Ty::List(e) if matches!(&**e, Ty::Tuple(kv) if kv.len() == 2 && kv[1] == Ty::Grp)))
+            && name == "Subject"
     }
 
     /// the Lean name of the state type
@@ -1894,6 +2012,7 @@ pub fn parse_spec(spec: &str) -> Ty {
         "obs" => Ty::Obs,
         "callback" => Ty::Callback,
         "sub" => Ty::Sub,
+        "grp" => Ty::Grp,
         _ if spec.starts_with("named:") => Ty::Named(spec[6..].to_string()),
         _ if spec.starts_with("opt:") => Ty::Opt(Box::new(parse_spec(&spec[4..]))),
         _ => panic!("bad type spec {}", spec),
@@ -2089,7 +2208,7 @@ pub fn translate_observer(items: &[Item], name: &str, ctx: &mut Ctx, hints: &Has
         }
         info.methods.insert(
             fname.clone(),
-            MethodInfo { effectful: !has_ret, params: params.clone(), needs_closed, needs_down, needs_pub: subscribe, ret: ret.clone(), partial: false },
+            MethodInfo { effectful: !has_ret, params: params.clone(), needs_closed, needs_down, needs_pub: subscribe, needs_grp: body_txt.contains("or_insert_with"), ret: ret.clone(), partial: false },
         );
         sigs.push((fname, params, !has_ret));
     }
@@ -2136,6 +2255,9 @@ pub fn translate_observer(items: &[Item], name: &str, ctx: &mut Ctx, hints: &Has
         let mi = info.methods[&fname].clone();
         if mi.needs_pub {
             ps += " (newPub : Rs.Pub)";
+        }
+        if mi.needs_grp {
+            ps += " (newGrp : Rs.Grp)";
         }
         if mi.needs_down {
             ps += " (down : Bool)";
@@ -2917,7 +3039,7 @@ fn main() {
             // the slot observer
             if ent.imports.contains(&"RcObserver") {
                 let mut methods = HashMap::new();
-                let mi = |e: bool, ps: Vec<(String, Ty)>| MethodInfo { effectful: e, params: ps, needs_closed: false, needs_down: !e, needs_pub: false, ret: Ty::Bool, partial: false };
+                let mi = |e: bool, ps: Vec<(String, Ty)>| MethodInfo { effectful: e, params: ps, needs_closed: false, needs_down: !e, needs_pub: false, needs_grp: false, ret: Ty::Bool, partial: false };
                 methods.insert("next".to_string(), mi(true, vec![("value".into(), Ty::Val)]));
                 methods.insert("error".to_string(), mi(true, vec![("err".into(), Ty::Err)]));
                 methods.insert("complete".to_string(), mi(true, vec![]));
